@@ -328,6 +328,13 @@ def plain_dims(x):
     return [i for i, ax in enumerate(x.axes) if not grp(ax)]
 
 
+def _plain(x):
+    """no grouped axis of any kind - decided once on the history-laden array (a one-member grouped axis has a plain twin)"""
+    if _CTX.get("plain") is not None:
+        return _CTX["plain"]
+    return not has_group(x) and not real_group(x)
+
+
 def inplace_dims(x):
     """axes that in-place relabel / rename steps may touch: no grouped axis of any size (renaming or relabelling a
     grouped axis, even a one-member one, desynchronises it from its members: the KF-D25 family)"""
@@ -519,9 +526,10 @@ def _relabel(da, x, y, k, m):
         x.set_axis(np.roll(np.arange(n) * 3 + k, 1) if k % 2 else np.array(["L%d" % i for i in range(n)], dtype=object), axis=d)
     elif form == 2:
         newl = []
+        touch = set(inplace_dims(x))      # (decided on the history-laden array, reused for its twin)
         for i, ax in enumerate(x.axes):
-            newl.append(np.arange(ax.size) + 10 * i + k if not (grp(ax) or is_grouped(ax)) else ax.values)
-        if not has_group(x) and not real_group(x):
+            newl.append(np.arange(ax.size) + 10 * i + k if i in touch else ax.values)
+        if _plain(x):
             x.labels = newl
         else:
             x.set_axis(np.arange(n) + k, axis=d)
@@ -540,7 +548,7 @@ def _rename(da, x, y, k, m):
     form = m % 3
     if form == 0:
         x.axes[d].name = fresh[k % len(fresh)]
-    elif form == 1 and not has_group(x) and not real_group(x):
+    elif form == 1 and _plain(x):
         x.dims = tuple(fresh[(k + i) % len(fresh)] for i in range(x.ndim)) if len(set(fresh[(k + i) % len(fresh)] for i in range(x.ndim))) == x.ndim else x.dims
     else:
         x.set_axis(name=fresh[(k + 1) % len(fresh)], axis=d)
@@ -653,6 +661,8 @@ def run_history(case, allow_kf_pattern=False):
             if tag in ("relabel", "rename", "assign", "index", "reindex") and not plain_dims(x):
                 continue
             _CTX["inplace_names"] = None
+            _CTX["plain"] = None
+            _CTX["plain"] = _plain(x) if tag in ("relabel", "rename") else None
             _CTX["dataset_names"] = [x.dims[i_] for i_ in plain_dims(x) if not is_grouped(x.axes[i_]) and "," not in x.dims[i_]] if tag == "dataset" else None
             if tag in ("relabel", "rename"):
                 names_ = [x.axes[i_].name for i_ in inplace_dims(x)]
